@@ -161,6 +161,11 @@ func (s Set) PutValid(ip ...netip.Addr) {
 
 func (s Set) PutDeleting(ip ...netip.Addr) {
 	for _, v := range ip {
+		if prev, ok := s[v]; ok && prev.InUse() {
+			// never schedule an address for deletion while a pod holds it
+			prev.status = ipStatusValid
+			continue
+		}
 		s[v] = &IP{ip: v, status: ipStatusDeleting}
 	}
 }
